@@ -94,3 +94,18 @@ Definition wt_prog (p : prog) : bool := wf_prog (fun _ => []) p.
 Definition cert_side (p : prog) : bool :=
   wt_prog p && sty_prog p && nodup_nat (block_sdefs (p_body p))
   && match scoped_block [] (p_body p) with Some _ => true | None => false end.
+
+(* ---- known-finding class F42 (audit): the INPUT of accfg-trace-states already has an scf.if with a
+   state-typed result (IR that was threaded before).  The pass then adds a second state result for the
+   same accelerator (sound, but rejected by the certificate: [nodup_nat (map sr_acc srs)]) and, when that
+   result feeds a loop that already carries the state, appends an operand without a block argument
+   (verifier error; the model [weave] returns None). *)
+Fixpoint stmt_prethreaded_if (s : stmt) : bool :=
+  let blk := fix blk (b : list stmt) : bool := match b with [] => false | x :: b' => stmt_prethreaded_if x || blk b' end in
+  match s with
+  | SIf _ rs th _ el _ =>
+      existsb (fun r => match snd r with TState _ => true | TInt => false end) rs || blk th || blk el
+  | SFor _ _ _ _ _ _ body _ => blk body
+  | _ => false
+  end.
+Definition prethreaded_if (p : prog) : bool := existsb stmt_prethreaded_if (p_body p).
